@@ -261,6 +261,36 @@ func (b *Base) DeliverAll() int {
 	return n
 }
 
+// Snap is a restorable image of the whole environment: store and every cache. Cached objects are
+// shared by pointer between snapshots - they are immutable by contract, which the fingerprint oracle
+// verifies around every sync.
+type Snap struct {
+	Store  *sim.Snap
+	Caches map[*sim.Kind][]interface{}
+	Revs   []interface{}
+}
+
+func (b *Base) Snapshot() *Snap {
+	s := &Snap{Store: b.Sim.Snapshot(), Caches: map[*sim.Kind][]interface{}{}, Revs: b.RevIndexer.List()}
+	for _, k := range b.Sim.Kinds() {
+		if inf := b.Informer(k); inf != nil {
+			s.Caches[k] = inf.GetIndexer().List()
+		}
+	}
+	return s
+}
+
+func (b *Base) Restore(s *Snap) {
+	b.Sim.Restore(s.Store)
+	b.Sim.ResetLog()
+	for _, k := range b.Sim.Kinds() {
+		if inf := b.Informer(k); inf != nil {
+			inf.ReplaceSilently(s.Caches[k])
+		}
+	}
+	_ = b.RevIndexer.Replace(s.Revs, "")
+}
+
 // CacheDump returns canonical JSON of all cache contents (for canonical forms and oracles).
 func (b *Base) CacheDump() string {
 	var parts []string
@@ -405,7 +435,9 @@ func (r *Recorder) add(s string) {
 		r.Events = append(r.Events, s)
 	}
 }
-func (r *Recorder) Event(_ runtime.Object, t, reason, msg string) { r.add(t + " " + reason + " " + msg) }
+func (r *Recorder) Event(_ runtime.Object, t, reason, msg string) {
+	r.add(t + " " + reason + " " + msg)
+}
 func (r *Recorder) Eventf(_ runtime.Object, t, reason, f string, a ...interface{}) {
 	r.add(t + " " + reason + " " + fmt.Sprintf(f, a...))
 }
